@@ -72,4 +72,5 @@ c1875a2 C14
 749e897 C19
 6112cb1 C19
 c2be3c9 C07
+2c9ca16 C10
 LIST
